@@ -439,11 +439,22 @@ def run_edb_cases(res, P, cases, exe, wd, ncases, rng):
     picked = usable if len(usable) <= ncases else [usable[i] for i in sorted(rng.sample(range(len(usable)), ncases))]
     pdir = os.path.dirname(exe)
     odir = os.path.join(pdir, "out"); os.makedirs(odir, exist_ok=True)
+    # relations the program object exposes: an input relation no output depends on is removed by the compiler
+    # (getRelation() = nullptr); its tuples cannot be inserted and do not matter for the outputs
+    p0 = subprocess.run([exe, P["id"]], input="new\nrels\n", capture_output=True, text=True, timeout=300)
+    exposed = set(re.findall(r"^r\t([^\t]*)\t", p0.stdout, re.M))
+    missing = [r["name"] for r in P["rels"] if r["name"] not in exposed]
+    if any(r["output"] for r in P["rels"] if r["name"] in missing):
+        res.violations.append(("[%s] output relation(s) %s are not exposed by the program object" % (P["id"], missing),
+                               save_replay(wd, P, "rels", ["new", "rels"], "output relation missing")))
+        return 0
+    res.count("declared_relations_removed_by_the_compiler", len(missing))
+    PX = dict(P); PX["rels"] = [r for r in P["rels"] if r["name"] in exposed]
     script = []; plans = []
     for k, c in enumerate(picked):
         fdir = os.path.join(pdir, "facts%d" % k)
         render.write_facts(P, c["edb"], fdir)
-        steps = edb_script(P, c, rng.sample(usable, min(6, len(usable))), fdir, odir, rng)
+        steps = edb_script(PX, c, rng.sample(usable, min(6, len(usable))), fdir, odir, rng)
         plans.append((c, steps)); script += [s for s, _ in steps]
     p = subprocess.run([exe, P["id"]], input="\n".join(script) + "\n", capture_output=True, text=True, timeout=1800,
                        errors="surrogateescape")
